@@ -289,7 +289,7 @@ class Sym:
         self.max_depth = max_depth
         self.bound: Dict[str, str] = {}       # name -> canonical string override (inlining)
         self.suffix: Optional[Callable[[str], str]] = None   # version suffix for untracked state reads
-        self.scope: List[Set[str]] = []       # comprehension/lambda bound names
+        self.scope: List[Dict[str, str]] = []  # comprehension/lambda bound names -> positional canonical names (alpha-normal form)
 
     # ---- helpers
     def _node_id(self, e: ast.AST, at: Optional[int]) -> Optional[int]:
@@ -355,7 +355,7 @@ class Sym:
             opn = type(e.op).__name__
             return Poly.atom(f"{opn}({l.key()}, {r.key()})")
         if isinstance(e, ast.IfExp):
-            return Poly.atom("ite(" + cmp_key(self.cmp(e.test, at, depth + 1)) + ", " + self.ev(e.body, at, depth + 1).key() + ", " + self.ev(e.orelse, at, depth + 1).key() + ")")
+            return ite_atom(self.cmp(e.test, at, depth + 1), self.ev(e.body, at, depth + 1), self.ev(e.orelse, at, depth + 1))
         if isinstance(e, ast.Call):
             return self._call(e, at, depth)
         if isinstance(e, ast.Attribute):
@@ -374,9 +374,9 @@ class Sym:
 
     # ---- names
     def _name(self, e: ast.Name, at, depth) -> Poly:
-        for sc in self.scope:
+        for sc in reversed(self.scope):
             if e.id in sc:
-                return Poly.atom(e.id)
+                return Poly.atom(sc[e.id] if isinstance(sc, dict) else e.id)
         if e.id in self.bound:
             return Poly.atom(self.bound[e.id])
         if e.id in self.eager:
@@ -404,7 +404,10 @@ class Sym:
                 return Poly.atom(f"{e.id}@aug{self.cfg.nodes[d.node].lineno}")
             if d.kind == "for":
                 it = self.canon(d.ast.iter, d.node, depth + 1)
-                return Poly.atom(f"{e.id}∈{it}") if d.value is not None else Poly.atom(f"{e.id}∈unpack({it})")
+                # named by position in the loop target, not by the variable's name (a renamed loop variable is the same value)
+                pos = [n for n, _ in _targets(d.ast.target)]
+                tag = f"#{pos.index(e.id)}" if e.id in pos and len(pos) > 1 else ""
+                return Poly.atom(f"item{tag}∈{it}") if d.value is not None else Poly.atom(f"item{tag}∈unpack({it})")
             if d.kind in ("import", "def"):
                 return Poly.atom(e.id)
             if d.kind == "unpack" and isinstance(d.ast, ast.Assign) and len(d.ast.targets) == 1:
@@ -419,8 +422,87 @@ class Sym:
                         if isinstance(te, ast.Name) and te.id == e.id:
                             return Poly.atom(f"({self.canon(v, d.node, depth + 1)})[{i}]")
             return Poly.atom(f"{e.id}@{d.kind}")
+        if len(defs) == 2 and depth < self.max_depth:
+            r = self._diamond(e.id, defs, at, depth)
+            if r is not None:
+                return r
         kinds = sorted({d.kind for d in defs})
         return Poly.atom(f"phi({e.id}:{len(defs)}:{'/'.join(kinds)})")
+
+    # ---- two definitions joined by one `if`: the value is the conditional expression the statement form spells out
+    def _parents(self):
+        if getattr(self, "_parent_map", None) is None:
+            pm = {}
+            for p in ast.walk(self.f.node):
+                for field, value in ast.iter_fields(p):
+                    if isinstance(value, list):
+                        for v in value:
+                            if isinstance(v, ast.AST):
+                                pm[id(v)] = (p, field)
+                    elif isinstance(value, ast.AST):
+                        pm[id(value)] = (p, field)
+            self._parent_map = pm
+        return self._parent_map
+
+    def _enclosing_loop(self, node):
+        pm = self._parents()
+        cur = node
+        while id(cur) in pm:
+            cur, field = pm[id(cur)]
+            if isinstance(cur, (ast.For, ast.While)) and field == "body":
+                return cur
+            if isinstance(cur, (ast.FunctionDef, ast.Lambda)):
+                return None
+        return None
+
+    def _diamond(self, var, defs, at, depth):
+        def plain(d):
+            return d.kind == "assign" and d.value is not None and isinstance(d.ast, ast.Assign) and len(d.ast.targets) == 1 and isinstance(d.ast.targets[0], ast.Name)
+        if not any(plain(d) for d in defs):
+            return None
+        pm = self._parents()
+        use = self.cfg.nodes[at].ast if at is not None and at < len(self.cfg.nodes) else None
+        par = [pm.get(id(d.ast)) if plain(d) else (None, None) for d in defs]
+        d1, d2 = defs
+        (p1, f1), (p2, f2) = par
+        test_if = None
+        outer_only = None
+        if p1 is not None and p1 is p2 and isinstance(p1, ast.If) and {f1, f2} == {"body", "orelse"}:
+            test_if = p1
+            tv, fv = (d1, d2) if f1 == "body" else (d2, d1)
+        else:
+            for inner, outer, (pi, fi) in ((d1, d2, par[0]), (d2, d1, par[1])):
+                if pi is not None and isinstance(pi, ast.If) and fi in ("body", "orelse"):
+                    tn = self.cfg.node_of(pi.test)
+                    if tn is None or outer not in self.rd.reaching(var, tn.id) or inner in self.rd.reaching(var, tn.id):
+                        continue
+                    if outer.kind == "for":
+                        if self._enclosing_loop(pi) is not outer.ast:
+                            continue
+                    elif outer.kind != "param" and self._enclosing_loop(pi) is not self._enclosing_loop(outer.ast):
+                        continue
+                    if outer.kind == "param" and self._enclosing_loop(pi) is not None:
+                        continue
+                    test_if = pi
+                    outer_only = outer
+                    tv, fv = (inner, outer) if fi == "body" else (outer, inner)
+                    break
+        if test_if is None:
+            return None
+        tn = self.cfg.node_of(test_if.test)
+        if tn is None or at is None or not self.cfg.dominates(tn.id, at) or at == tn.id:
+            return None
+        if use is not None and self._enclosing_loop(use) is not self._enclosing_loop(test_if) and self._enclosing_loop(test_if) is not None:
+            return None
+        # the use must come after the whole `if` (inside a branch only one definition would reach)
+        c = self.cmp(test_if.test, tn.id, depth + 1)
+        def val(d):
+            if d is outer_only:
+                return self._name(ast.Name(id=var, ctx=ast.Load()), tn.id, depth + 1)      # the value reaching the `if` (one definition there)
+            return self.ev(d.value, d.node, depth + 1)
+        a = val(tv)
+        b = val(fv)
+        return ite_atom(c, a, b)
 
     def _global(self, name: str, depth: int) -> Poly:
         """Module-level numeric constants are folded (e.g. SECONDS_IN_YEAR)."""
@@ -495,16 +577,18 @@ class Sym:
         if isinstance(e, ast.Dict):
             return "{" + ", ".join((self.canon(k, at, depth + 1) if k is not None else "**") + ": " + self.canon(v, at, depth + 1) for k, v in zip(e.keys, e.values)) + "}"
         if isinstance(e, (ast.ListComp, ast.SetComp, ast.GeneratorExp, ast.DictComp)):
-            bound: Set[str] = set()
+            bound: Dict[str, str] = {}
             gens = []
+            level = len(self.scope)
             self.scope.append(bound)
             try:
                 for g in e.generators:
                     it = self.canon(g.iter, at, depth + 1)
                     for n, _ in _targets(g.target):
-                        bound.add(n)
+                        bound.setdefault(n, f"_c{level}_{len(bound)}")
                     conds = [cmp_key(self.cmp(c, at, depth + 1)) for c in g.ifs]
-                    gens.append(f"for {ast.unparse(g.target)} in {it}" + "".join(f" if {c}" for c in conds))
+                    tgt = self.canon(g.target, at, depth + 1) if not isinstance(g.target, ast.Name) else bound[g.target.id]
+                    gens.append(f"for {tgt} in {it}" + "".join(f" if {c}" for c in conds))
                 if isinstance(e, ast.DictComp):
                     elt = self.canon(e.key, at, depth + 1) + ": " + self.canon(e.value, at, depth + 1)
                 else:
@@ -514,10 +598,12 @@ class Sym:
             kind = {"ListComp": "[]", "SetComp": "{}", "GeneratorExp": "()", "DictComp": "{}"}[type(e).__name__]
             return kind[0] + elt + " " + " ".join(gens) + kind[1]
         if isinstance(e, ast.Lambda):
-            bound = {a.arg for a in e.args.args}
+            level = len(self.scope)
+            params = [a.arg for a in e.args.posonlyargs + e.args.args + e.args.kwonlyargs]
+            bound = {a: f"_l{level}_{i}" for i, a in enumerate(params)}
             self.scope.append(bound)
             try:
-                return "lambda " + ",".join(sorted(bound)) + ": " + self.canon(e.body, at, depth + 1)
+                return "lambda " + ",".join(bound[a] for a in params) + ": " + self.canon(e.body, at, depth + 1)
             finally:
                 self.scope.pop()
         if isinstance(e, ast.JoinedStr):
@@ -623,6 +709,16 @@ def cmp_key(c) -> str:
     if c[0] == "truthy":
         return f"[{'' if c[2] else 'not '}{c[1]}]"
     return str(c)
+
+
+def ite_atom(c, a: "Poly", b: "Poly") -> "Poly":
+    """Value id of `a if c else b`, oriented canonically: `b if not c else a` is the same atom."""
+    nc = cmp_negate(c)
+    if cmp_key(nc) < cmp_key(c):
+        c, a, b = nc, b, a
+    if a == b:
+        return a
+    return Poly.atom("ite(" + cmp_key(c) + ", " + a.key() + ", " + b.key() + ")")
 
 
 def cmp_strip_nan(c):
